@@ -62,9 +62,12 @@ ERR_KINDS = [
 ]
 
 
-def glue(spec, kind):
+def glue(spec, kind, via_macro=False):
     ty, fn, exp = kind
     spec.parse_err = (ty, fn)
+    if via_macro and "<" not in ty:
+        # the enum is produced by a macro_rules! template and the error type / function arrive as macro arguments
+        spec.macro_params = [("parse_err_ty = ", ty, "path"), ("parse_err_fn = ", fn, "path")]
     if any(v.default and not v.disabled for v in spec.variants):
         ty = "strum::ParseError"      # with a catch-all variant no error is ever produced; both impls use the standard type
     body = strgen.default_with_fns(spec) + "\n" + spec.render() + "\n"
@@ -92,8 +95,8 @@ def check(run):
             tag = "std-error"
         else:
             k = ERR_KINDS[i % len(ERR_KINDS)]
-            g = glue(s, k)
-            tag = "custom:" + k[0]
+            g = glue(s, k, via_macro=(i % 4 == 1))
+            tag = "custom:" + k[0] + (",macro" if s.macro_params else "")
         u = shards.Unit("u_" + s.name.lower(), g, meta={"enum_src": s.render()}, sig=tag + "," + s.signature(), head=(strgen.CAPTURE_HEAD, ERR_HEAD))
         units.append(u)
         spec_by_unit[u.name] = s
